@@ -21,7 +21,7 @@ XMLNS_URI = "http://www.w3.org/2000/xmlns/"
 NS_ERRS = {"UnknownPrefix", "NoUseOfxmlnsAsPrefix", "PrefixXMLNotMatchXMLURI", "NoEmptyStrNamespace", "NoUseOfxmlnsURI",
            "XMLURINotMatchXMLPrefix", "AttrAlreadyUsedInSTag"}
 APIS = ["sax2p", "sax2", "sax1", "dom"]
-SCANNERS = ["ig", "wf", "sg"]
+SCANNERS = ["ig", "wf", "sg", "dg"]
 
 PREFIXES = ["p%d" % i for i in range(48)] + ["x", "xm", "xmlnsx", "xmln", "XML", "xml2", "a", "q"]
 LOCALS = ["a", "b", "c", "d", "e1", "xmlnsx", "item", "x"]
@@ -31,6 +31,27 @@ URIS = ["urn:u%d" % i for i in range(8)] + ["http://example.org/ns", "u"]
 # ------------------------------------------------------------------------------------------------------------------
 # generator: abstract documents as token lists
 # ------------------------------------------------------------------------------------------------------------------
+NORM_ITEMS = ["{&amp}", "{#3A}", "{#20}", "{#9}", "{#A}", "{t}", "{n}", "{r}", "{s}", "{&lt}", "{&apos}", "{&quot}", "{&gt}", "{#41}",
+              "{#2F}"]
+
+
+def norm_value(r, ents=()):
+    """a namespace name whose written form is changed by attribute-value normalisation (XML 1.0 3.3.3): character and
+    predefined-entity references, literal TAB / LF / CR, leading / trailing / inner spaces, internal entity references"""
+    base = r.choice(["urn:n", "http://e.org/ns?a=1", "urn:x", "u"])
+    parts = list(base) if r.random() < 0.7 else [base]
+    for _ in range(r.choice([1, 1, 2, 3])):
+        it = r.choice(NORM_ITEMS + ["{&%s}" % e for e in ents] * 3)
+        pos = r.choice([0, len(parts), r.randrange(len(parts) + 1)])
+        parts.insert(pos, it)
+    out = []
+    for p in parts:
+        if p == "{n}" and out and out[-1] == "{r}":      # CR LF is one line end (2.11): not the subject here
+            continue
+        out.append(p)
+    return "".join(out)
+
+
 class DocGen:
     def __init__(self, rng, ver, err, profile):
         self.rng = rng
@@ -40,6 +61,8 @@ class DocGen:
         self.toks = []
         self.nelem = 0
         self.features = set()
+        self.pnorm = 0.25 if rng.random() < 0.4 else 0.0      # share of declarations with a value that needs normalising
+        self.ents = ()                                         # names of internal entities usable in values
 
     def ndecls(self):
         r = self.rng
@@ -70,6 +93,9 @@ class DocGen:
             if self.ver == "11" and p in scope and scope[p] and r.random() < 0.5:
                 decls.append((p, ""))
                 self.features.add("undeclare-prefix")
+            elif r.random() < self.pnorm:
+                decls.append((p, norm_value(r, self.ents)))
+                self.features.add("normalised-namespace-name")
             else:
                 decls.append((p, r.choice(URIS)))
         if r.random() < 0.3:
@@ -77,7 +103,11 @@ class DocGen:
                 decls.append(("", ""))
                 self.features.add("undeclare-default")
             else:
-                decls.append(("", r.choice(URIS)))
+                if r.random() < self.pnorm:
+                    decls.append(("", norm_value(r, self.ents)))
+                    self.features.add("normalised-namespace-name")
+                else:
+                    decls.append(("", r.choice(URIS)))
                 self.features.add("default")
         if r.random() < 0.03:
             decls.append(("xml", XML_URI))           # legal
@@ -114,7 +144,7 @@ class DocGen:
             if (au, al) in seen:
                 continue
             seen.add((au, al))
-            attrs.append((ap, al, "v%d" % r.randrange(5)))
+            attrs.append((ap, al, "v%d" % r.randrange(5) if r.random() > 0.05 else "v{t}w{&amp}{#A}"))
         alist = [("xmlns", p, u) if p else ("", "xmlns", u) for p, u in decls] + attrs
         if self.profile == "huge" and self.nelem == 1:
             for i in range(r.choice([96, 99, 100, 101, 102, 110, 130])):
@@ -312,10 +342,10 @@ def doc_queries(toks):
                 if ap == "xmlns":
                     if al not in ps:
                         ps.append(al)
-                    if av != "-" and av not in us:
+                    if av != "-" and av not in us and "{" not in av:
                         us.append(av)
                 elif ap == "-" and al == "xmlns":
-                    if av != "-" and av not in us:
+                    if av != "-" and av not in us and "{" not in av:
                         us.append(av)
                 elif ap != "-" and ap not in ps:
                     ps.append(ap)
@@ -568,6 +598,10 @@ WITNESSES = [
             "S - b e 0 S - b n 1 - xmlns - S - a e 2 xmlns p urn:q - da w E E"),
     ("DTD", "parse dom ig 10 1 p 1 urn:d DTD 2 a - da D dv b - dc D cv S - a n 2 - xmlns urn:d xmlns p urn:p S - b e 0 E"),
     ("DTD", "parse sax2p ig 10 0 0 DTD 3 a xmlns p D urn:p a - xmlns D urn:d a p x D 1 S p a n 0 S - b e 0 E"),
+    # namespace names changed by attribute-value normalisation (references, literal TAB, leading / trailing space)
+] + [("NORM", "parse %s %s 10 1 q 0 S p r n 3 xmlns p urn:a{&amp}b - xmlns http://e.org/ns?a=1{&amp}b=2 p k v "
+              "S q c e 2 xmlns q {s}urn:x{#3A}y{t}z{s} q k v E" % (api, sc))
+     for sc in ("ig", "wf", "sg", "dg") for api in ("sax2p", "dom")] + [
     # XML 1.1: attribute using a prefix that was un-declared
     ("F28", "parse sax2p ig 11 0 0 S - r n 1 xmlns p urn:u S - c e 2 xmlns p - p x 1 E"),
     ("F28", "parse dom ig 11 0 0 S - r n 1 xmlns p urn:u S - c e 2 xmlns p - p x 1 E"),
@@ -628,12 +662,16 @@ def request_parts(req):
         nu = int(a[5 + nq])
         us = a[6 + nq:6 + nq + nu]
         rest = a[6 + nq + nu:]
-        dtd = []
+        ent, dtd = [], []
+        if rest and rest[0] == "ENT":
+            m = int(rest[1])
+            ent = rest[:2 + 2 * m]
+            rest = rest[2 + 2 * m:]
         if rest and rest[0] == "DTD":
             n = int(rest[1])
             dtd = rest[:2 + 5 * n]
             rest = rest[2 + 5 * n:]
-        return a[1], a[2], a[3], qs, us, dtd, rest, effective_toks(dtd, rest)
+        return a[1], a[2], a[3], qs, us, ent + dtd, rest, effective_toks(dtd, rest)
     return None
 
 
@@ -750,8 +788,11 @@ def process(ctx, xh, xm, cases, st):
             if "xmlns" in req:
                 ctx.distinct(req)
         if kind == "known-F31":
-            # literal witness of F31: not compared with the model (no repaired model exists); reported only if it reproduces
-            if i.count(" p db fv") >= 2:
+            # literal witness of F31: reported as known finding only if it reproduces; otherwise compared like any case
+            if i.count(" p db fv") < 2:
+                if i != m:
+                    divergences.append(k)
+            elif i.count(" p db fv") >= 2:
                 if ctx.find_known("F31"):
                     ctx.known_finding("F31", "DOM: a DTD-defaulted attribute with a prefix (p:db) appears twice, the second copy "
                                       "in the XML namespace (prototype created by AbstractDOMParser::endAttList); witness `%s`" % req)
@@ -843,6 +884,13 @@ def gen_batches(ctx, feats):
         for d in range(per // 3):
             g = DocGen(ctx.rng, "11" if ctx.rng.random() < 0.1 else "10",
                        ctx.rng.choice(ERR_KINDS) if ctx.rng.random() < 0.15 else None, "normal")
+            ent = []
+            if ctx.rng.random() < 0.4:
+                # internal general entities referenced from namespace names (their text counts as literal)
+                g.ents = ("e1", "e2")
+                g.pnorm = 0.5
+                ent = ["ENT", "2", "e1", ctx.rng.choice(["urn:ent", "a{t}b", "x{s}"]), "e2", ctx.rng.choice(["/p", "{s}q{n}", "r"])]
+                feats["entity-in-namespace-name"] = feats.get("entity-in-namespace-name", 0) + 1
             g.element(0, {}, "", ctx.rng.choice([1, 2, 3, 4]))
             dtd = gen_dtd(ctx.rng, g.toks)
             qs, us = doc_queries(effective_toks(dtd, g.toks))
@@ -851,19 +899,19 @@ def gen_batches(ctx, feats):
                 # F31 (known finding): through the DOM a defaulted attribute with an ordinary prefix is duplicated in the XML
                 # namespace; exactly that class is excluded from the DOM requests
                 dd = dtd
-                if api == "dom":
+                if api == "dom" and ctx.find_known("F31"):
                     ents = [dtd[2 + 5 * k:7 + 5 * k] for k in range(int(dtd[1]))]
                     ents = [e for e in ents if e[1] in ("-", "xml", "xmlns")]
                     dd = ["DTD", str(len(ents))] + [t for e in ents for t in e]
                 for sc in ("ig", "dg"):
                     d2 = dd
-                    if sc == "dg":
+                    if sc == "dg" and ctx.find_known("F32"):
                         # F32 (known finding): DGXMLScanner does not put defaulted namespace declarations in scope for the tag
                         # itself; exactly that class is excluded from the DG requests
                         ents = [d2[2 + 5 * k:7 + 5 * k] for k in range(int(d2[1]))]
                         ents = [e for e in ents if not (e[1] == "xmlns" or (e[1] == "-" and e[2] == "xmlns"))]
                         d2 = ["DTD", str(len(ents))] + [t for e in ents for t in e]
-                    body = " ".join(("%d %s %d %s %s %s" % (len(qs), " ".join(qs), len(us), " ".join(us), " ".join(d2), " ".join(g.toks))).split())
+                    body = " ".join(("%d %s %d %s %s %s" % (len(qs), " ".join(qs), len(us), " ".join(us), " ".join(ent + d2), " ".join(g.toks))).split())
                     cases.append(("dtd-%s-%s" % (api, sc), "parse %s %s %s %s" % (api, sc, g.ver, body), g))
         for _ in range(nstack * per // ndocs + 1):
             cases.append(("stack", gen_stack_ops(ctx.rng), None))
